@@ -9,12 +9,13 @@ RECURSIVE SeqOfSet(_)
 SeqOfSet(S) == IF S = {} THEN <<>> ELSE LET x == CHOOSE x \in S : TRUE IN <<x>> \o SeqOfSet(S \ {x})
 PathSeq(alpha, n) == LET q == SeqOfSet(Strs(alpha, n)) IN [i \in 1..Len(q) |-> A(q[i])]
 PatsO == {"/u/{id}", "/u/{id:\\d+}", "/u/{id:digit}", "/u/5", "/u/{id}/x", "/u/{id}/{p:\\d+}", "/u/{id}/{a}/xx", "/u/{uid}/x5",
-          "/u/{id}x", "/{p}", "/u/{id:digit}55", "/u/x/5", "/u/{p:even}77", "/u/{r:any}", "/u/{id:\\d+}/x", "/u/{id:\\d+}/5", "/u/{-v:\\d+|new}/x"}
+          "/u/{id}x", "/{p}", "/u/{id:digit}55", "/u/x/5", "/u/{p:even}77", "/u/{r:any}", "/u/{id:\\d+}/x", "/u/{id:\\d+}/5", "/u/{-v:\\d+|new}/x", "/{-w:\\d+}/x"}
 HOpsO == {H(p, G) : p \in PatsO}
 ROpsO == {}  COpsO == {}  UOpsO == {}
 CfgsO == {Cfg(FALSE)}
 \* the second base puts five literal children under /u/ (first-byte index) using only the probe alphabet
-BasesO == {<<>>, <<H("/u/5", G), H("/u/7", G), H("/u/x", G), H("/u/u", G), H("/u//", G)>>}
+\* (the child "5" is a handler-less split node - /u/5x, /u/57 - until /u/5 itself is registered)
+BasesO == {<<>>, <<H("/u/5x", G), H("/u/57", G), H("/u/7", G), H("/u/x", G), H("/u/u", G), H("/u//", G)>>}
 \* every string up to length 3, and "/u/" followed by every string up to length L (the pool lives under /u/)
 AlphaO == {"/", "u", "x", "5", "7"}
 ProbesO == LET q == SeqOfSet(Strs(AlphaO, 3) \cup {"/u/" \o s : s \in Strs(AlphaO, L)}) IN [i \in 1..Len(q) |-> A(q[i])]
